@@ -67,6 +67,11 @@ let () = each_line (fun l ->
          let (ma, mb) = if k = "tY" then (let ma = read_map "MA" out in let mb = read_map "MB" out in (ma, mb)) else ([], []) in
          expect out "X"; let x = read_ta out in
          let (xa, xb) = if k = "tY" then (let ma = read_map "MA" out in let mb = read_map "MB" out in (ma, mb)) else ([], []) in
+         expect out "Z"; (match peek out with Some "EXC" -> failwith "model: pristine process failed" | _ -> ());
+         let z = read_ta out in
+         let (za, zb) = if k = "tY" then (let ma = read_map "MA" out in let mb = read_map "MB" out in (ma, mb)) else ([], []) in
+         (if k = "tY" then (if not (t_union_gate za zb a b z) then fail "depends_on_process_history")
+          else if not (t_obs_eq x z) then fail "depends_on_process_history");
          pending_t := Some (h, k, a, b, m, off, ma, mb, x, xa, xb)
        | "tP" | "wP" ->
          let j = num t in incr nreplay;
@@ -100,6 +105,13 @@ let () = each_line (fun l ->
          expect out "X"; let x = read_w out in
          let (xa, xb) = if k = "wY" then (let ma = read_map "MA" out in let mb = read_map "MB" out in (ma, mb))
                         else if k = "wI" then (read_map "M" out, []) else ([], []) in
+         expect out "Z"; (match peek out with Some "EXC" -> failwith "model: pristine process failed" | _ -> ());
+         let z = read_w out in
+         let (za, zb) = if k = "wY" then (let ma = read_map "MA" out in let mb = read_map "MB" out in (ma, mb))
+                        else if k = "wI" then (read_map "M" out, []) else ([], []) in
+         (if k = "wY" then (if not (w_union_gate za zb a b z) then fail "depends_on_process_history")
+          else if k = "wI" then (if not (w_image_gate za a z) then fail "depends_on_process_history")
+          else if not (w_vis_eq x z) then fail "depends_on_process_history");
          pending_w := Some (h, k, a, b, m, off, ma, mb, x, xa, xb)
        | w -> failwith ("model: unknown step " ^ w));
       (* what libvata shows *)
@@ -161,7 +173,7 @@ let () = each_line (fun l ->
          | Some v, Some ob -> if not (w_obs_eq v ob) then fail (if target then "step_value" else "isolation")
          | _, _ -> fail "liveness")) [0; 1; 2; 3; 4; 5]
     done;
-    (if !fails = [] then "OK" else "FAIL " ^ String.concat "," !fails)
+    (match !fails with [] -> "OK" | [g] -> "FAIL " ^ g | g :: r -> "FAIL " ^ g ^ " also=" ^ String.concat "," r)
     ^ (if !drift = [] then "" else " DRIFT " ^ String.concat "," !drift)
     ^ Printf.sprintf " steps=%d copies=%d muts=%d shared_muts=%d libs=%d replays=%d destroys=%d maxlive=%d"
         nsteps !ncopy !nmut !shared_mut !nlib !nreplay !ndestroy !maxlive)
